@@ -861,7 +861,11 @@ func (vc *FnVC) applyContract(fc *FuncContract, sig *types.Signature, args []Val
 		vc.assume(implies(scope, vc.trBool(cl.E, &post)))
 	}
 	for _, cl := range fc.Defines {
-		vc.enc.usedAssumptions["abstract verdict defined by "+fc.Key+": "+cl.Src+" (the verdict is a function of the named arguments within one call of the caller)"] = true
+		if fc.View != "" {
+			vc.enc.usedAssumptions["ASSUMED, not proved (property view "+fc.View+" of "+fc.Key+"'s contract): "+cl.Src] = true
+		} else {
+			vc.enc.usedAssumptions["abstract verdict defined by "+fc.Key+": "+cl.Src+" (the verdict is a function of the named arguments within one call of the caller)"] = true
+		}
 		vc.assume(vc.trBool(cl.E, &post))
 	}
 	// ghost assignments performed by the callee at return
